@@ -16,6 +16,7 @@ import (
 	custodytypes "github.com/KiraCore/sekai/x/custody/types"
 	feeprocessingtypes "github.com/KiraCore/sekai/x/feeprocessing/types"
 	govtypes "github.com/KiraCore/sekai/x/gov/types"
+	"github.com/KiraCore/sekai/x/tokens"
 	tokenstypes "github.com/KiraCore/sekai/x/tokens/types"
 	abci "github.com/cometbft/cometbft/abci/types"
 	tmproto "github.com/cometbft/cometbft/proto/tendermint/types"
@@ -700,13 +701,141 @@ func (h *anteH) apply(ctx sdk.Context, s cfgSpec) {
 		}
 	}
 	if s.setLists {
-		app.TokensKeeper.SetTokenBlackWhites(ctx, tokenstypes.TokensWhiteBlack{Whitelisted: s.white, Blacklisted: s.black})
+		h.editListsTo(ctx, s.black, s.white)
 	}
 	if s.setPoor {
 		app.CustomGovKeeper.SavePoorNetworkMessages(ctx, &govtypes.AllowedMessages{Messages: s.poor})
 	}
 	for _, f := range s.exec {
 		app.CustomGovKeeper.SetExecutionFee(ctx, f)
+	}
+}
+
+// editListsTo moves the stored freeze lists to the target sets THROUGH the real proposal handler of the tokens module
+// (ProposalTokensWhiteBlackChange: remove, then add), with argument lists that repeat tokens, name tokens that are
+// not on the list (removal) or already on it (addition) and come in random order. Every edit is one op line
+// (`ante lists black|white add|rm <tokens>`) the Lean model answers too (both lists, sorted); the oracle compares the
+// stored lists with the requested set semantics.
+func (h *anteH) editListsTo(ctx sdk.Context, black, white []string) {
+	r, app := h.r, h.w.app
+	if line := h.cfgLine(ctx); line != h.lastCfg { // the model must hold the lists the edit starts from
+		r.Op(line, "ok")
+		h.lastCfg = line
+	}
+	handler := tokens.NewApplyWhiteBlackChangeProposalHandler(app.TokensKeeper)
+	noise := []string{"frozen", "ubtc", "xeth", "ueth", "ukex", "tka", "zzz"}
+	sorted := func(l []string) string {
+		c := append([]string(nil), l...)
+		sort.Strings(c)
+		if len(c) == 0 {
+			return "-"
+		}
+		return strings.Join(c, ",")
+	}
+	mangle := func(need []string, alsoOK func(string) bool) []string {
+		var out []string
+		for _, t := range need {
+			out = append(out, t)
+			if r.Rng.Intn(3) == 0 {
+				out = append(out, t) // adjacent repeat
+			}
+		}
+		for _, t := range need {
+			if r.Rng.Intn(4) == 0 {
+				out = append(out, t) // distant repeat
+			}
+		}
+		for _, t := range noise {
+			if alsoOK(t) && r.Rng.Intn(5) == 0 {
+				out = append(out, t)
+			}
+		}
+		r.Rng.Shuffle(len(out), func(i, j int) { out[i], out[j] = out[j], out[i] })
+		if len(need) > 0 && r.Rng.Intn(3) == 0 { // a repeat of the FIRST list element right at the front
+			out = append([]string{out[0]}, out...)
+		}
+		return out
+	}
+	for _, isBlack := range []bool{true, false} {
+		target := white
+		name := "white"
+		if isBlack {
+			target, name = black, "black"
+		}
+		for _, isAdd := range []bool{false, true} {
+			bw := app.TokensKeeper.GetTokenBlackWhites(ctx)
+			cur := bw.Whitelisted
+			if isBlack {
+				cur = bw.Blacklisted
+			}
+			inCur, inTarget := map[string]bool{}, map[string]bool{}
+			for _, t := range cur {
+				inCur[t] = true
+			}
+			for _, t := range target {
+				inTarget[t] = true
+			}
+			var need []string
+			want := map[string]bool{}
+			var args []string
+			if isAdd {
+				for _, t := range target {
+					if !inCur[t] {
+						need = append(need, t)
+					}
+				}
+				args = mangle(need, func(t string) bool { return inCur[t] }) // re-adding what is there changes nothing
+				for t := range inCur {
+					want[t] = true
+				}
+				for _, t := range args {
+					want[t] = true
+				}
+			} else {
+				for _, t := range cur {
+					if !inTarget[t] {
+						need = append(need, t)
+					}
+				}
+				args = mangle(need, func(t string) bool { return !inCur[t] }) // removing what is not there changes nothing
+				for t := range inCur {
+					want[t] = true
+				}
+				for _, t := range args {
+					delete(want, t)
+				}
+			}
+			if len(args) == 0 {
+				continue
+			}
+			how := "rm"
+			if isAdd {
+				how = "add"
+			}
+			err := handler.Apply(ctx, 0, &tokenstypes.ProposalTokensWhiteBlackChange{IsBlacklist: isBlack, IsAdd: isAdd, Tokens: args}, sdk.ZeroDec())
+			after := app.TokensKeeper.GetTokenBlackWhites(ctx)
+			line := fmt.Sprintf("ante lists %s %s %s", name, how, joinOrDash(args))
+			r.Op(line, fmt.Sprintf("black=%s white=%s", sorted(after.Blacklisted), sorted(after.Whitelisted)))
+			r.Count("lists:" + name + ":" + how)
+			if len(args) != len(need) {
+				r.Count("lists:args-with-repeats-or-noise")
+			}
+			got := after.Whitelisted
+			if isBlack {
+				got = after.Blacklisted
+			}
+			ok := err == nil && len(got) == len(want)
+			for _, t := range got {
+				if !want[t] {
+					ok = false
+				}
+			}
+			r.Count("oracle:C14/freeze-list/edit")
+			if !ok {
+				r.Fail("C14/freeze-list/edit-not-as-requested", fmt.Sprintf("enacted ProposalTokensWhiteBlackChange(%s, %s, %v) on the list %v left %v (err=%v): a token the proposal did not name changed its freeze status, or a named one did not", name, how, args, cur, got, err),
+					[]string{line})
+			}
+		}
 	}
 }
 
